@@ -323,6 +323,7 @@ pub fn run(ctx: &Ctx) -> i32 {
             exhaustive: None,
             extra: vec![],
             min_distinct: 1000,
+            min_counters: vec![],
         },
     )
 }
